@@ -69,6 +69,15 @@ CHECKS.update({
         ref='3/C03'),
 })
 
+CHECKS.update({
+    'C04': dict(
+        technique='property-based testing of generated response/clock histories in the simulator; invariant oracle over the callback history and the real cache',
+        text=SIM + 'browsers receive generated datagram histories (new/refresh/re-cased/goodbye/flush/repeated pointers, clock steps up to hours); '
+             'callback alternation, live-set == cached pointer set after every op, and visibility of the triggering records from inside add_service.',
+        note='restrictions of the property are built into the generator; C05 ties the cache itself to the RFC model',
+        ref='3/C04'),
+})
+
 NOT_YET = {
 }
 
